@@ -46,6 +46,7 @@ func getCachedPath(expr string) []string {
 // Stack provides stack-based variable lookup and convenient typed accessors.
 type Stack struct {
 	stack    []map[string]any // bottom..top, top is last element
+	pooled   []bool           // parallel to stack: the map came from mapPool (Push(nil)) and goes back there
 	rootData any              // original data passed to Render (for struct field fallback)
 }
 
@@ -62,6 +63,7 @@ func NewStackWithData(root map[string]any, originalData any) *Stack {
 		root = map[string]any{}
 	}
 	s.stack = []map[string]any{root}
+	s.pooled = []bool{false}
 	s.rootData = originalData
 	return s
 }
@@ -82,10 +84,12 @@ func (s *Stack) Copy() *Stack {
 // Push a new map as a top-most Stack.
 // If m is nil, an empty map is obtained from the pool.
 func (s *Stack) Push(m map[string]any) {
-	if m == nil {
+	fromPool := m == nil
+	if fromPool {
 		m = mapPool.Get().(map[string]any)
 	}
 	s.stack = append(s.stack, m)
+	s.pooled = append(s.pooled, fromPool)
 }
 
 // Pop the top-most Stack. If only root remains it still pops to empty slice safely.
@@ -97,16 +101,21 @@ func (s *Stack) Pop() {
 	// Return the top map to the pool before removing it
 	topIdx := len(s.stack) - 1
 	topMap := s.stack[topIdx]
-	// Clear the map and return it to pool if it's not the root
-	if topIdx > 0 && len(topMap) > 0 {
+	// Clear the map and return it to the pool if it came from there. A map that the caller
+	// passed to Push is the caller's: it is left as it is.
+	if topIdx > 0 && len(topMap) > 0 && topIdx < len(s.pooled) && s.pooled[topIdx] {
 		for k := range topMap {
 			delete(topMap, k)
 		}
 		mapPool.Put(topMap)
 	}
 	s.stack = s.stack[:topIdx]
+	if topIdx < len(s.pooled) {
+		s.pooled = s.pooled[:topIdx]
+	}
 	if len(s.stack) == 0 {
 		s.stack = append(s.stack, map[string]any{})
+		s.pooled = append(s.pooled[:0], false)
 	}
 }
 
@@ -114,6 +123,7 @@ func (s *Stack) Pop() {
 func (s *Stack) Set(key string, val any) {
 	if len(s.stack) == 0 {
 		s.stack = append(s.stack, map[string]any{})
+		s.pooled = append(s.pooled[:0], false)
 	}
 	s.stack[len(s.stack)-1][key] = val
 }
